@@ -178,7 +178,38 @@ func jsonString(s string) string {
 	if !validUTF8(s) {
 		return `{"x":"` + hex.EncodeToString([]byte(s)) + `"}`
 	}
-	b, _ := json.Marshal(s)
+	return quoteJSON(s)
+}
+
+// quoteJSON writes a valid UTF-8 string as a JSON string without going
+// through encoding/json: that package keeps its encoder states in a
+// sync.Pool, and a pool hand-over between two simulated clients would be a
+// happens-before edge that the harness, not the library, put there (it could
+// hide a race between them).
+func quoteJSON(s string) string {
+	const hexd = "0123456789abcdef"
+	b := make([]byte, 0, len(s)+2)
+	b = append(b, '"')
+	for i := 0; i < len(s); i++ {
+		c := s[i]
+		switch {
+		case c == '"' || c == '\\':
+			b = append(b, '\\', c)
+		case c == '\n':
+			b = append(b, '\\', 'n')
+		case c == '\t':
+			b = append(b, '\\', 't')
+		case c == '\r':
+			b = append(b, '\\', 'r')
+		case c < 0x20 || c == 0x7f:
+			b = append(b, '\\', 'u', '0', '0', hexd[c>>4], hexd[c&15])
+		case c == '<' || c == '>' || c == '&':
+			b = append(b, '\\', 'u', '0', '0', hexd[c>>4], hexd[c&15])
+		default:
+			b = append(b, c)
+		}
+	}
+	b = append(b, '"')
 	return string(b)
 }
 
